@@ -23,7 +23,7 @@ RULE = ("seeded random circuit trees built with add/herald/primitives (depth 0-3
         "declaration, nesting depth>=2, ungrouped add, child contains a group}")
 MANDATORY = ["add_ancilla_inside_span", "add_ancilla_after_span", "add_child_herald_in_ne_out",
              "add_heralds_nonascending", "add_nested_depth2", "add_ungrouped", "add_child_has_group",
-             "add_inside_x_in_ne_out", "add_ancilla_before_span", "plus_operator"]
+             "add_inside_x_in_ne_out", "add_ancilla_before_span", "plus_operator", "child_extended_after_it_was_added"]
 DECIDING = ["mon.cmp", "tree_comparisons"]
 BUDGET = {"quick": 30, "thorough": 480}
 ASSUMPTIONS = ["wire model + own permanent are the reference; visible photon number <= 2 (3 when small) "
@@ -170,6 +170,23 @@ def run(ctx):
             drain_into(ctx, {"tree": log})
             continue
         check(ctx, c, log, rng)
+        for child, sub_log in b.children:
+            if child._internal_modes or rng.random() < 0.3:
+                try:
+                    elog: list = []
+                    for _ in range(int(rng.integers(1, 3))):
+                        b.primitive(child, elog, None)
+                    if rng.random() < 0.3:
+                        extra = b.leaf(2, 1, [], heralds=1)
+                        if extra.input_modes <= b.numbered(child):
+                            child.add(extra, 0)
+                    ctx.bucket("child_extended_after_it_was_added")
+                    check(ctx, child, ["child", sub_log, "extended", elog], rng)
+                except Exception as e:  # noqa: BLE001
+                    ctx.violation(f"extending a circuit after it was used as a sub-circuit raised {type(e).__name__}: {e}",
+                                  case={"tree": log, "child": sub_log, "failing_call": b.last},
+                                  mechanism="legal_call_raised_on_reused_child:" + type(e).__name__, monitor="tree builder")
+        check(ctx, c, log, rng)          # ... and the parent must not have moved
         if any(st[0] == "plus" for st in log):
             ctx.bucket("plus_operator")
         ctx.case(shape_key(log), cls.hit, sample={"tree": log})
